@@ -72,19 +72,21 @@ func r6Parse(s string) (y, m, d int, ok bool) {
 
 func init() {
 	register(&Check{
-		ID:   "C19",
-		Rule: "every civil day in the year set (thorough: 0001-01-01..9999-12-31) x 26 slot-edge times: Solar strings matched against the canonical regex, parsed back, and compared with the previous state's string (strict lexicographic increase along the total order of moments); lunar/Tao/Foto/LunarMonth/LunarYear renderings parsed back with the inverse of the exported NUMBER/MONTH/DAY tables. non-trivial = states whose lunar month is a leap month, whose year has fewer than 4 digits, or that start a lunar month",
-		Assume: []string{"R6 parser is the inverse of LunarUtil.NUMBER/MONTH/DAY (uniqueness of table entries is asserted at start)"},
-		Shards: func(tier string, seed int64) []Shard { return yearShards(tier, seed, 9999, "") },
-		Run:    runC19,
+		ID:            "C19",
+		Rule:          "every civil day in the year set (thorough: 0001-01-01..9999-12-31) x 26 slot-edge times: Solar strings matched against the canonical regex, parsed back, and compared with the previous state's string (strict lexicographic increase along the total order of moments); lunar/Tao/Foto/LunarMonth/LunarYear renderings parsed back with the inverse of the exported NUMBER/MONTH/DAY tables. non-trivial = states whose lunar month is a leap month, whose year has fewer than 4 digits, or that start a lunar month",
+		Assume:        []string{"R6 parser is the inverse of LunarUtil.NUMBER/MONTH/DAY (uniqueness of table entries is asserted at start)"},
+		Shards:        func(tier string, seed int64) []Shard { return yearShards(tier, seed, 9999, "") },
+		Run:           runC19,
 		MinNontrivial: 50,
 	})
 	register(&Check{
-		ID:   "C20",
-		Rule: "every civil day 0001-01-01..9998-12-31 (both tiers): zodiac sign compared with the 366-entry month-day table built from the twelve conventional start days, run structure checked along the day order; festival lists compared with reference (k-th / last weekday occurrence from R1, fixed dates from the exported tables); once-per-year counted per year. non-trivial = days carrying at least one festival or lying on a sign boundary",
+		ID:     "C20",
+		Rule:   "every civil day 0001-01-01..9998-12-31 (both tiers): zodiac sign compared with the 366-entry month-day table built from the twelve conventional start days, run structure checked along the day order; festival lists compared with reference (k-th / last weekday occurrence from R1, fixed dates from the exported tables); once-per-year counted per year. non-trivial = days carrying at least one festival or lying on a sign boundary",
 		Assume: []string{"conventional sign start days: 3-21,4-20,5-21,6-22,7-23,8-23,9-23,10-24,11-23,12-22,1-20,2-19", "R1 weekday and month lengths"},
-		Shards: func(tier string, seed int64) []Shard { return splitRanges([][2]int{{1, 9998}}, 32, Shard{Tier: tier, Seed: seed}) },
-		Run:    runC20,
+		Shards: func(tier string, seed int64) []Shard {
+			return splitRanges([][2]int{{1, 9998}}, 32, Shard{Tier: tier, Seed: seed})
+		},
+		Run:           runC20,
 		MinNontrivial: 50,
 	})
 }
